@@ -16,6 +16,7 @@
 package main
 
 import (
+	"bufio"
 	"bytes"
 	"fmt"
 	"io"
@@ -65,17 +66,21 @@ type stream struct {
 	// Lines (optional, concatenation = Data): send line by line and require the completion of line i (Expect[i]) to
 	// arrive WITHOUT any further input (10 s) before the next line is sent
 	Lines [][]byte
+	// for synchronising literals: NeedComp[i] / NeedCont[i] = completions / continuation requests that must have arrived
+	// after piece Lines[i] before the next piece is sent (0 or missing: do not wait)
+	NeedComp, NeedCont []int
 }
 
 type outcome struct {
-	Completions []completion
-	Raw         []byte
-	Closed      bool // server closed the connection
-	Crash       bool
-	Spin        bool
-	Hang        bool
-	ConnErr     string
-	Withheld    int // 1-based index of the first line whose completion did not arrive before more input was sent; 0 = none
+	Completions  []completion
+	Raw          []byte
+	Closed       bool // server closed the connection
+	Crash        bool
+	Spin         bool
+	Hang         bool
+	ConnErr      string
+	WithheldCont int // 1-based index of the first piece ending in a literal header that was not followed by a continuation request; 0 = none
+	Withheld     int // 1-based index of the first line whose completion did not arrive before more input was sent; 0 = none
 }
 
 var reCompletion = regexp.MustCompile(`^([^ ]*) (OK|NO|BAD)( .*)?$`)
@@ -115,7 +120,7 @@ func runStream(c *child, login bool, data []byte) outcome {
 
 // runStreamSteps sends the pieces one after the other; when need[i] >= 0 it sends piece i+1 (or half-closes) only after
 // need[i] completions (not counting the login's) have arrived, waiting at most 10 s (then Withheld = i+1).
-func runStreamSteps(c *child, login bool, pieces [][]byte, need []int) outcome {
+func runStreamSteps(c *child, login bool, pieces [][]byte, need []int, needCont ...int) outcome {
 	var o outcome
 	conn, err := net.DialTimeout("tcp", c.addr, 10*time.Second)
 	if err != nil {
@@ -134,6 +139,17 @@ func runStreamSteps(c *child, login bool, pieces [][]byte, need []int) outcome {
 		defer mu.Unlock()
 		return len(parseResponses(raw))
 	}
+	conts := func() int { // continuation requests received so far ("+ ..." lines)
+		mu.Lock()
+		defer mu.Unlock()
+		n := 0
+		for _, l := range bytes.Split(raw, []byte("\r\n")) {
+			if bytes.HasPrefix(l, []byte("+ ")) || bytes.Equal(l, []byte("+")) {
+				n++
+			}
+		}
+		return n
+	}
 	rdone := make(chan struct{})
 	go func() {
 		buf := make([]byte, 65536)
@@ -148,9 +164,9 @@ func runStreamSteps(c *child, login bool, pieces [][]byte, need []int) outcome {
 			}
 		}
 	}()
-	wdone := make(chan int, 1)
+	wdone := make(chan [2]int, 1)
 	go func() {
-		withheld := 0
+		withheld, withheldCont := 0, 0
 		extra := 0
 		tcp.SetWriteDeadline(time.Now().Add(120 * time.Second))
 		if login {
@@ -188,9 +204,27 @@ func runStreamSteps(c *child, login bool, pieces [][]byte, need []int) outcome {
 					time.Sleep(200 * time.Microsecond)
 				}
 			}
+			// synchronising literal: the client waits for the continuation request before it sends the literal data
+			if i < len(needCont) && needCont[i] > 0 && withheld == 0 && withheldCont == 0 {
+				deadline := time.Now().Add(10 * time.Second)
+				for conts() < needCont[i] && count() < len(pieces)+extra+1000 {
+					select {
+					case <-rdone:
+						deadline = time.Now()
+					default:
+					}
+					if time.Now().After(deadline) {
+						if conts() < needCont[i] {
+							withheldCont = i + 1
+						}
+						break
+					}
+					time.Sleep(200 * time.Microsecond)
+				}
+			}
 		}
 		tcp.CloseWrite()
-		wdone <- withheld
+		wdone <- [2]int{withheld, withheldCont}
 	}()
 	// U2: the server must close after our half-close. A spinning parser is detected early by its CPU use.
 	waited := 0 * time.Second
@@ -221,7 +255,8 @@ func runStreamSteps(c *child, login bool, pieces [][]byte, need []int) outcome {
 	}
 	o.Closed = !o.Spin && !o.Hang
 	select {
-	case o.Withheld = <-wdone:
+	case w := <-wdone:
+		o.Withheld, o.WithheldCont = w[0], w[1]
 	case <-time.After(15 * time.Second):
 	}
 	// strip the greeting
@@ -329,6 +364,9 @@ func judge(s stream, o outcome) (string, string) {
 		if len(cs) == 0 || cs[0].Tag != s.First {
 			return "COMPLETION", fmt.Sprintf("first completion must carry tag %q, got %s", s.First, compStr(cs))
 		}
+	}
+	if o.WithheldCont > 0 {
+		return "WITHHELD-CONTINUATION", fmt.Sprintf("no continuation request (\"+ ...\") within 10 s after the literal header that ends piece %d: a client that waits for it, as RFC 3501 requires for a synchronising literal, is stuck with the server (completions so far: %s)", o.WithheldCont, compStr(cs))
 	}
 	if o.Withheld > 0 && s.Lined && !racyStartTLS(s) {
 		return "WITHHELD", fmt.Sprintf("the completion of line %d was not sent within 10 s although the line is complete; it needs further input from the client (completions so far: %s)", o.Withheld, compStr(cs))
@@ -486,7 +524,16 @@ func runC11(ctx *common.Ctx) error {
 		if withheldSeen >= 3 && strings.HasPrefix(s.Name, "lines:") {
 			s.Lines = nil // enough evidence; do not spend 10 s per further random stream
 		}
-		if len(s.Lines) > 0 && s.Lined {
+		if len(s.Lines) > 0 && len(s.NeedCont) > 0 {
+			need := make([]int, len(s.Lines))
+			for i := range need {
+				need[i] = -1
+				if i < len(s.NeedComp) && s.NeedComp[i] > 0 {
+					need[i] = s.NeedComp[i]
+				}
+			}
+			o = runStreamSteps(c, s.Login, s.Lines, need, s.NeedCont...)
+		} else if len(s.Lines) > 0 && s.Lined {
 			need := make([]int, len(s.Lines))
 			for i := range need {
 				need[i] = -1
@@ -547,7 +594,7 @@ func runC11(ctx *common.Ctx) error {
 				tries++
 				cand := best
 				cand.Data = bytes.Join(append(append([][]byte{}, parts[:i]...), parts[i+1:]...), nil)
-				cand.Lined, cand.Expect, cand.First, cand.Lines = false, nil, "", nil
+				cand.Lined, cand.Expect, cand.First, cand.Lines, cand.NeedComp, cand.NeedCont = false, nil, "", nil, nil, nil
 				if kind == "COMPLETION" || kind == "EXTRA-COMPLETIONS" || kind == "LOGIN" {
 					break
 				}
@@ -845,6 +892,116 @@ func runC11(ctx *common.Ctx) error {
 			}
 			res.Nontrivial("leak " + pre + " " + string(ls.data))
 		}
+	}
+
+	// ---------------------------------------------------------------- 1e. synchronising literals
+	// syncOf cuts the commands after every literal header "{n}CRLF"; the client waits for the "+" before it sends the
+	// literal data (also for n = 0) and for the completion of a command before it sends the next one
+	syncOf := func(name string, login bool, cmds []string, exp []expect) stream {
+		st := stream{Name: name, Login: login, Model: true, Lined: true, Expect: exp}
+		reHdr := regexp.MustCompile(`\{\d+\}\r\n`)
+		nc, nk := 0, 0
+		for _, cmd := range cmds {
+			st.Data = append(st.Data, cmd...)
+			rest := cmd
+			for {
+				loc := reHdr.FindStringIndex(rest)
+				if loc == nil {
+					break
+				}
+				nc++
+				st.Lines = append(st.Lines, []byte(rest[:loc[1]]))
+				st.NeedComp = append(st.NeedComp, 0)
+				st.NeedCont = append(st.NeedCont, nc)
+				rest = rest[loc[1]:]
+			}
+			nk++
+			st.Lines = append(st.Lines, []byte(rest))
+			st.NeedComp = append(st.NeedComp, nk)
+			st.NeedCont = append(st.NeedCont, 0)
+		}
+		return st
+	}
+	for _, login := range []bool{false, true} {
+		run(syncOf("script:sync-literals", login,
+			[]string{"a1 LOGIN {0}\r\n {1}\r\nx\r\n", "a2 LOGIN {4}\r\nnone {5}\r\nwrong\r\n", "a3 LIST {0}\r\n {1}\r\n*\r\n", "a4 LIST \"\" {0}\r\n\r\n",
+				"a5 SEARCH SUBJECT {0}\r\n\r\n", "a6 SEARCH CHARSET {5}\r\nUTF-8 TEXT {3}\r\nabc OR FROM {0}\r\n TO {1}\r\n\x00\r\n",
+				"a7 APPEND INBOX {0}\r\n\r\n", fmt.Sprintf("a8 APPEND {5}\r\nINBOX (\\Seen) {%d}\r\n%s\r\n", len(msg), msg), "a9 CREATE {0}\r\n\r\n",
+				"b1 ID (\"name\" {0}\r\n \"os\" {1}\r\nx)\r\n", "b2 STATUS {5}\r\nINBOX (MESSAGES)\r\n", "b3 FETCH 1 (BODY[HEADER.FIELDS ({0}\r\n {2}\r\nTo)])\r\n",
+				"b4 RENAME {0}\r\n {0}\r\n\r\n", "b5 NOOP\r\n"},
+			[]expect{e("a1", ""), e("a2", ""), e("a3", ""), e("a4", ""), e("a5", ""), e("a6", ""), e("a7", ""), e("a8", ""), e("a9", ""),
+				e("b1", ""), e("b2", ""), e("b3", ""), e("b4", ""), e("b5", "OK")}))
+	}
+
+	// ---------------------------------------------------------------- 1f. memory of a long-lived connection
+	// Many large but legal lines on ONE connection, each answered: what the session retains must not grow with their
+	// number. Heap of the child after a forced GC (HEAP command), connection still open.
+	{
+		res.Evaluations++
+		res.Count("category:memory")
+		nBig, bigLen := ctx.Budget(40, 100), 512*1024
+		ctx.Current(fmt.Sprintf("RETAINS post-login %d lines of %d KiB on one connection", nBig, bigLen/1024), nil)
+		fail := func(kind, detail string) {
+			res.Fail(fmt.Sprintf("%s post-login %d x (m<i> LOGIN \"<%d KiB>\" p | m<i> LOGIN {%d}CRLF<data> p) on one connection", kind, nBig, bigLen/1024, bigLen), detail, nil)
+		}
+		conn, err := net.DialTimeout("tcp", c.addr, 10*time.Second)
+		if err != nil {
+			return err
+		}
+		rd := bufio.NewReaderSize(conn, 1<<16)
+		await := func(tag string) error {
+			conn.SetReadDeadline(time.Now().Add(60 * time.Second))
+			for {
+				l, err := rd.ReadString('\n')
+				if err != nil {
+					return err
+				}
+				if strings.HasPrefix(l, tag+" ") {
+					return nil
+				}
+			}
+		}
+		conn.SetReadDeadline(time.Now().Add(20 * time.Second))
+		rd.ReadString('\n')
+		conn.Write([]byte("M0 LOGIN user pass\r\n"))
+		if err := await("M0"); err != nil {
+			return fmt.Errorf("memory test login: %v", err)
+		}
+		big := bytes.Repeat([]byte("x"), bigLen)
+		h0 := c.heap()
+		broke := ""
+		for i := 1; i <= nBig && broke == ""; i++ {
+			tag := fmt.Sprintf("m%d", i)
+			var line []byte
+			if i%2 == 0 {
+				line = append(append([]byte(tag+" LOGIN \""), big...), []byte("\" p\r\n")...)
+			} else {
+				line = append(append([]byte(fmt.Sprintf("%s LOGIN {%d}\r\n", tag, bigLen)), big...), []byte(" p\r\n")...)
+			}
+			conn.SetWriteDeadline(time.Now().Add(60 * time.Second))
+			if _, err := conn.Write(line); err != nil {
+				broke = err.Error()
+			} else if err := await(tag); err != nil {
+				broke = "no completion for " + tag + ": " + err.Error()
+			}
+		}
+		h1 := c.heap()
+		conn.Close()
+		switch {
+		case broke != "" && !c.alive():
+			fail("CRASH", "the server process died: "+c.stderr.crashHead())
+			if err := restart(); err != nil {
+				return err
+			}
+		case broke != "":
+			fail("COMPLETION", broke)
+		case h0 < 0 || h1 < 0:
+			res.Infra("the child does not answer HEAP")
+		case h1-h0 > 8<<20:
+			fail("RETAINS", fmt.Sprintf("after %d answered lines of %d KiB (%d MiB in total) the live heap of the server grew from %d KiB to %d KiB while the connection is open: the session keeps what the client sent", nBig, bigLen/1024, nBig*bigLen>>20, h0>>10, h1>>10))
+		}
+		res.Notes = append(res.Notes, fmt.Sprintf("memory test: heap %d KiB -> %d KiB after %d x %d KiB", h0>>10, h1>>10, nBig, bigLen/1024))
+		res.Nontrivial("memory long-lived connection")
 	}
 
 	// ---------------------------------------------------------------- 1d. a server WITH a TLS configuration
